@@ -184,6 +184,9 @@ func (o *oracleRun) serve(k string, what string) string {
 			return fmt.Sprintf("after %s the longest-blocked waiter %d (%s, blocked %d-th) is still blocked; list %s holds %v in the oracle, waiting order %v",
 				what, w.n, strings.Join(w.argv, " "), w.n, k, o.lists[k], o.order())
 		}
+		if w.timeout > 0 && (res.reply == "$-1\r\n" || res.reply == "*-1\r\n") && time.Since(w.since) >= w.timeout-5*time.Millisecond {
+			return "inconclusive" // its own timeout ran out at the same moment
+		}
 		replies[w] = res.reply
 		w.done = true
 		o.remove(w)
@@ -371,6 +374,36 @@ func runOracleScenario(seed int64, stats map[string]int) (string, []string) {
 			problem = o.othersStillBlocked()
 			// the woken waiters must be registered again before the next action
 			time.Sleep(3 * time.Millisecond)
+		case c == 13 && len(o.waiting) >= 1 && o.r.Intn(2) == 0: // a waiter is unblocked and its key pushed to in one transaction
+			w := o.waiting[o.r.Intn(len(o.waiting))]
+			if w.timeout > 0 {
+				continue
+			}
+			k := w.keys[0]
+			if len(o.lists[k]) > 0 {
+				continue
+			}
+			x := o.elem()
+			o.lists[k] = append(o.lists[k], x)
+			what := fmt.Sprintf("MULTI; CLIENT UNBLOCK <W%d>; RPUSH %s %s; EXEC", w.n, k, x)
+			o.logf("P: %s", what)
+			do(o.ctl, "MULTI")
+			do(o.ctl, "CLIENT", "UNBLOCK", fmt.Sprint(w.cl.ID()))
+			do(o.ctl, "RPUSH", k, x)
+			do(o.ctl, "EXEC")
+			res, ok := get(w.ch, 600*time.Millisecond)
+			if !ok {
+				problem = fmt.Sprintf("W%d still blocked after %s", w.n, what)
+			} else if !(res.reply == "$-1\r\n" || res.reply == "*-1\r\n") {
+				problem = fmt.Sprintf("W%d was unblocked before the push in the same transaction but answered %q", w.n, res.reply)
+			}
+			w.done = true
+			o.remove(w)
+			w.cl.Close()
+			if problem == "" {
+				// the element belongs to the longest-blocked of the remaining waiters of the key
+				problem = o.serve(k, what)
+			}
 		case c < 12: // non-blocking pop
 			k := []string{"ka", "kb"}[o.r.Intn(2)]
 			if len(o.lists[k]) == 0 {
